@@ -870,6 +870,61 @@ def ref_sheet(ck, F, rule="REF-SHEET"):
     ck.ob(rule, "stringify|reference-sites", n >= 4, "expected at least 4 stringify_reference call sites in stringify, found %d" % n, b.file, b.line)
 
 
+def shift_lower_bounds(ck, F, rule="GRID-GUARD"):
+    """Shifted descriptors land on the right side of the edit: with the count parameter instantiated to 1, 2, 3 the zone
+    engine proves at every shifting store
+       insert_rows     new Row.r     >= row + row_count         insert_columns  new Col.min >= column + column_count
+       delete_rows     new Row.r     >= row
+    (delete_columns' Col.min is rule descriptor_order).  An off-by-one in the guard of the shift breaks the bound."""
+    import zones
+    from effects import Program
+    P = Program(F)
+    TABLE = (("insert_rows", ("ironcalc_base::types::Row", "r"), "row_count", "row", lambda k: k, "Add"),
+             ("delete_rows", ("ironcalc_base::types::Row", "r"), "row_count", "row", lambda k: 0, "Sub"),
+             ("insert_columns", ("ironcalc_base::types::Col", "min"), "column_count", "column", lambda k: k, "Add"))
+    for fn, fld, cnt, pos, off, sign in TABLE:
+        b = ck.need(F.one, "model::Model::" + fn)
+        names = {b.local_name(i): i for i in range(1, b.nargs + 1)}
+        if cnt not in names or pos not in names:
+            ck.ob(rule, "%s|params" % fn, False, "%s: parameters %s / %s not found" % (fn, cnt, pos), b.file, b.line)
+            continue
+        stores = []
+        for bi, si, s in b.stmts():
+            if not place_proj(s["p"]) or s["rv"]["k"] != "use":
+                continue
+            p = b.resolve_place(s["p"], through_named=False)
+            pj = place_proj(p)
+            if pj and pj[-1][0] == "f" and (pj[-1][3], pj[-1][2]) == fld:
+                sr = sources(b, s["rv"]["o"])
+                if ("arith", sign) in sr and ("param", cnt) in sr:
+                    stores.append((bi, si, s))
+        ck.ob(rule, "%s|shift-stores" % fn, len(stores) >= 1, "%s: no shifting store into %s.%s found" % (fn, fld[0].rsplit("::", 1)[-1], fld[1]), b.file, b.line)
+        pos_t = "_%d" % names[pos]
+        for k in (1, 2, 3):
+            A = zones.Analysis(b, P, F, assume={names[cnt]: k})
+            for n, (bi, si, s) in enumerate(stores, 1):
+                ok, checked = True, 0
+                for kk, zin in A.pstate_in.get(bi, {}).items():
+                    z = zin.copy()
+                    z.close()
+                    for j, st in enumerate(b.blocks[bi]["s"]):
+                        if j == si:
+                            break
+                        A.stmt(z, st)
+                    if z.bottom:
+                        continue
+                    checked += 1
+                    v = A.lin(z, s["rv"]["o"], "i32")
+                    # pos + off(k) <= v
+                    if v is None or not z.entails(pos_t, v[0], v[1] - off(k)):
+                        ok = False
+                f, l = b.loc(bi, si)
+                ck.ob(rule, "%s|count=%d|shift-store#%d lower bound" % (fn, k, n), ok and checked > 0,
+                      "%s (%s = %d) can store a shifted %s.%s below %s%s: a descriptor is moved although it lies before the edit position, "
+                      "or by the wrong amount" % (fn, cnt, k, fld[0].rsplit("::", 1)[-1], fld[1], pos, (" + %d" % off(k)) if off(k) else ""),
+                      f, l, sample={"fn": fn, "count": k, "states": checked})
+
+
 def descriptor_order(ck, F, rule="GRID-GUARD"):
     """Column descriptors stay sorted and disjoint under delete_columns: a descriptor that starts to the right of the
     first deleted column still starts at or after it afterwards -- it cannot land left of the deleted block, on top of
